@@ -225,6 +225,38 @@ PROPS["C06"] = {
     "level_note": "Depth bound on the exhaustive part; universe sizes as stated. Hook compiled in through cargo feature `verif`.",
 }
 
+PROPS["C17"] = {
+    "shards": 16,
+    "quick_budget_s": 60,
+    "thorough_budget_s": 900,
+    "floors": {"any": {"discovered-set-equals-reference-set": 3000, "three-way-outcomes-equal": 3000, "self-instantiation-rejected": 300,
+                       "outcome:ok": 2000, "position:targets": 500, "position:import:package-path": 500,
+                       "position:import:inline-interface:use": 500, "position:interface:use": 500, "position:world:use": 500,
+                       "position:world:import-path": 500, "position:world:export-path": 500,
+                       "position:world:import-inline-interface:use": 500, "position:world:export-inline-interface:use": 500,
+                       "position:world:include": 500, "position:let:new": 1500, "position:export:new": 1000,
+                       "position:new:nested-in-named-argument": 1000, "position:new:nested-in-parentheses-in-named-argument": 500,
+                       "position:new:nested-in-double-parentheses": 500, "position:own-package-path": 400}},
+    "rule": "Each case assembles a document `package test:doc [targets P/w1[@v]];` from 1-6 statements drawn from fragments that know which "
+            "package keys they mention: `import x: P/i0[@v]`, `import x: interface { use P/i0[@v].{..} }`, `interface { use .. }`, worlds "
+            "with `use`, `import P/i0[@v]`, `export P/i1[@v]`, inline interfaces (imported and exported) containing `use`, "
+            "`include P/w1[@v]`, paths into the document's own package, `let`/`export` of `new C[@v] {..}` with further `new`s nested in "
+            "named arguments, in one and two levels of parentheses, beside `...` and `...x`, up to depth 3. P ranges over two WIT packages at "
+            "unversioned/versioned keys (same name at two versions in one document), C over six component packages (two at the same "
+            "name with different versions); one document in ten also names packages or versions that do not exist; one in eight puts "
+            "the document's own package at a random `new`. Checked: wac_resolver::packages returns exactly the set of mentioned keys "
+            "(never the own package; CannotInstantiateSelf for a self instantiation wherever it is nested); Document::resolve + encode "
+            "gives the same outcome (same SHA-256 of the bytes, or the same rendered error) when supplied the whole 13-package library, "
+            "the discovered packages only, and the discovered packages plus a random subset of the others. Non-trivial: every document; "
+            "distinct by the sorted multiset of reference positions and the outcome class.",
+    "assumptions": ["resolution stops at the first error, so references after a failing statement are only checked against the syntactic set "
+                    "(about a quarter of the documents fail resolution on purpose or by construction)",
+                    "panics of resolve/encode are C14's subject and are skipped here (counted as pipeline-panic-skipped)"],
+    "technique": "runtime monitor: generator-side reference set + differential resolution (discovered-only vs supersets)",
+    "level_text": "Every generated document's discovered package set is compared with the set the generator wrote into it, and resolution is run three times with different package supplies.",
+    "level_note": "Held on the generated positions; positions the generator does not produce are not covered.",
+}
+
 PROPS["C18"] = {
     "shards": 8,
     "workers": ["worker", "worker-nowat"],
